@@ -191,7 +191,9 @@ Judge == IF IOEnv.PASS # "shapesj" THEN TRUE ELSE
 (* from another sender is another message.                                 *)
 (***************************************************************************)
 Senders == {"A", "B", "D"}
-Deliveries == UNION {[1..n -> Senders \X (0..1)] : n \in 0..4}
+\* ... and long histories: a re-sent message is recognised however many other messages were received in between
+Long(n, rep) == [i \in 1..(n + Len(rep)) |-> IF i <= n THEN <<"A", i - 1>> ELSE <<"A", rep[i - n]>>]
+Deliveries == UNION {[1..n -> Senders \X (0..1)] : n \in 0..4} \cup {Long(700, <<0, 350, 699, 0>>), Long(1100, <<0>>)}
 ExpectedDelivered(seq) == SelectSeq([i \in 1..Len(seq) |-> IF \E j \in 1..(i - 1) : seq[j] = seq[i] THEN <<>> ELSE seq[i]],
                                     LAMBDA e : e # <<>>)
 GenerateSenders == IF IOEnv.PASS # "senders" THEN TRUE ELSE JsonSerialize(IOEnv.CASES_FILE, SetToSeq(Deliveries))
